@@ -26,13 +26,16 @@ type Plan struct {
 	Floor    int64 // Decrease disabled once value <= Floor
 	Rem      bool
 	NilEmpty bool // hand the empty key to the tree as nil instead of []byte{}
-	MaxDepth int // 0 = to fixpoint
+	MaxDepth int  // 0 = to fixpoint
 	Probes   [][]byte
 
 	Ops       []Op
 	Queries   [][]byte
 	seedImg   []byte
 	seedModel Model
+	// set when the seed itself violates the structural oracle or panics
+	seedFail   *Finding
+	seedFailAt int
 }
 
 func hk(b []byte) string { return hex.EncodeToString(b) }
@@ -94,17 +97,26 @@ func (p *Plan) prepare() {
 		}
 	}
 	p.Queries = append(append([][]byte{}, p.Keys...), p.Probes...)
-	// seed
+	// seed: built with real calls from NewTree; every 16th step and the last one are checked
+	// structurally. A seed that cannot be built soundly is itself a counterexample (the seed ops are
+	// ordinary operations), reported by the explorer instead of being explored from.
 	w := freshWorld(p.M)
 	model := Model{{"", 0}} // NewTree inserts the empty key with value zero
 	for i, o := range p.Seed {
-		applyImpl(w.tree, o)
+		if msg := try(func() { applyImpl(w.tree, o) }); msg != "" {
+			p.seedFail = &Finding{Assertion: "op.panic", Class: o.K + " " + msg, Detail: fmt.Sprintf("seed step %d %s: %s", i+1, o.String(), msg), Corrupt: true}
+			p.seedFailAt = i + 1
+			return
+		}
 		model = applyModel(model, o)
-		// seeds are construction scaffolding: they must be sound, otherwise the plan is meaningless
 		if i%16 == 15 || i == len(p.Seed)-1 {
 			fs, _ := checkStructure(w.tree, w.tree.VerifDump(), model, p.M)
 			if len(fs) > 0 {
-				panic(fmt.Sprintf("seed %s of plan %s is unsound after %d ops: %s", p.SeedName, p.Name, i+1, fs[0].Detail))
+				f := fs[0]
+				f.Detail = fmt.Sprintf("after seed step %d: %s", i+1, f.Detail)
+				p.seedFail = &f
+				p.seedFailAt = i + 1
+				return
 			}
 		}
 	}
@@ -204,8 +216,8 @@ func plansFor(tier string) []*Plan {
 		add(&Plan{Name: fmt.Sprintf("m%d/%s", m, name), M: m, SeedName: fmt.Sprintf("three_nodes(%d)", len(mid)), Seed: seed, Keys: keys, PerKey: true, Rem: true,
 			Probes: append(append([][]byte{}, probes...), fill...)})
 	}
-	if tier != "thorough" {
-		// ---- quick: every plan closes in well under a minute
+	{
+		// ---- quick (also the first 16 plans of thorough: they guarantee the vacuity events early)
 		// m=2 trees over 8 keys reach 7 levels and > 10^5 stored shapes; quick uses 6 keys
 		add(&Plan{Name: "m2/shapes6", M: 2, Keys: sub(keys8, 0, 1, 2, 3, 5, 6), PerKey: true, Rem: true})
 		add(&Plan{Name: "m2/values3", M: 2, Keys: sub(keys8, 0, 3, 5), SetVals: vals, Inc: true, Dec: true, Rem: true})
@@ -218,6 +230,8 @@ func plansFor(tier string) []*Plan {
 		seeded("three_nodes", 5, mid3, sub(keys8, 1, 2, 3, 4, 5, 6))
 		// the empty key handed over as nil (what NewTree itself does) instead of []byte{}
 		add(&Plan{Name: "m3/shapes6nil", M: 3, Keys: sub(keys8, 0, 1, 2, 3, 5, 6), PerKey: true, Rem: true, NilEmpty: true})
+	}
+	if tier != "thorough" {
 		return ps
 	}
 	// ---- thorough: per fan-out the largest key set whose reachable set still closes within the tier budget
@@ -234,8 +248,8 @@ func plansFor(tier string) []*Plan {
 	values4(10)
 	shapes(2, 7) // m=2 over 8 keys does not close within the budget (> 10^6 stored shapes, 7 levels)
 	shapes(3, 10)
-	shapes(4, 11)
-	shapes(5, 12)
+	shapes(4, 10)
+	shapes(5, 11)
 	shapes(10, 12)
 	for _, m := range []uint8{3, 4, 5} {
 		add(&Plan{Name: fmt.Sprintf("m%d/shapes8v", m), M: m, Keys: keys8, SetVals: vals, Rem: true})
@@ -243,9 +257,9 @@ func plansFor(tier string) []*Plan {
 	for _, m := range []uint8{2, 3, 4, 5} {
 		values4(m)
 	}
-	seeded("three_nodes", 10, mid4, keys8)
-	seeded("three_nodes", 255, mid4, sub(keys8, 1, 2, 3, 4, 5, 6))
-	seeded("three_nodes", 5, mid3, keys8)
+	seeded("three_nodes_k8", 10, mid4, keys8)
+	seeded("three_nodes_k6", 255, mid4, sub(keys8, 1, 2, 3, 4, 5, 6))
+	seeded("three_nodes_k8", 5, mid3, keys8)
 	add(&Plan{Name: "m3/shapes8nil", M: 3, Keys: keys8, PerKey: true, Rem: true, NilEmpty: true})
 	return ps
 }
